@@ -1121,6 +1121,15 @@ func opValueStateVarJournal(ctx context.Context, pc *uint64, interpreter *EVMInt
 }
 
 func loadDataFromMem(memPtr *uint256.Int, mem *Memory) ([]byte, uint64, error) {
+	// the length word and the data it announces must lie inside the frame's memory
+	memLen := uint64(mem.Len())
+	if !memPtr.IsUint64() || memPtr.Uint64() > memLen || memLen-memPtr.Uint64() < 32 {
+		return nil, 0, errors.New("mem pointer out of range")
+	}
+	if l := new(uint256.Int).SetBytes(mem.GetCopy(int64(memPtr.Uint64()), 32)); !l.IsUint64() || l.Uint64() > memLen-memPtr.Uint64()-32 {
+		return nil, 0, errors.New("mem data out of range")
+	}
+
 	offset := int64(memPtr.Uint64())
 	dataLen := new(uint256.Int).SetBytes(mem.GetCopy(offset, 32))
 	if !memPtr.IsUint64() {
